@@ -114,7 +114,17 @@ def rule_sort(ctx, prop):
             sorts = [b for b, t in f.calls() if STABLE.search(callee(t)) or REORDER.search(callee(t))]
             firsts = [b for b, t in f.calls() if callee(t).endswith("::first_mut")]
             ups = [(b, t) for b, t in f.calls() if callee(t).endswith("UpdateLeadingTrivia>::update_leading_trivia")]
-            if rep.anchor(len(sorts) == 1 and len(firsts) == 2 and len(ups) == 2,
+            # the pass moves the group's *leading* trivia and nothing else: no other trivia of a member is rewritten or stripped
+            others = sorted({callee(t).split("::")[-1] for b, t in f.calls()
+                             if re.search(r"UpdateTrailingTrivia>::update_trailing_trivia$|UpdateTrivia>::update_trivia$|(trivia_util|trivia)::strip_(trailing_)?trivia$|"
+                                          r"strip_leading_trivia$|take_(leading|trailing)_(comments|trivia)$", callee(t))})
+            rep.inst(f"{f.key} touches leading trivia only", {"other_trivia_calls": others}, cfg, ok=not others)
+            if others:
+                rep.violation(f"{f.key} sort-rewrites-other-trivia via={','.join(others)}",
+                              f"sort_requires calls {others} on a group member: only the leading trivia of the first member is saved and "
+                              f"re-attached after the sort, so anything else that is stripped (a trailing `-- comment` on the first "
+                              f"require) is deleted from the file", f.loc(), cfg)
+            if not others and rep.anchor(len(sorts) == 1 and len(firsts) == 2 and len(ups) == 2,
                           f"sort_requires: one sort, two first_mut, two update_leading_trivia "
                           f"({len(sorts)},{len(firsts)},{len(ups)})", cfg):
                 sb = sorts[0]
